@@ -373,9 +373,9 @@ class Recorder:
             osrc = n0.src if isroot else n0.copy().src
         except Exception:  # noqa: BLE001
             osrc = None
-        row = self.modes[mode]
+        row = self.modes[mode] if mode != 'all' else self.modes.get(okind)
         op = {'kind': okind, 's': os_, 'p': op_, 'root': isroot,
-              'alts': self.embed_facts(osrc, row) if (isroot and osrc is not None and mode != 'all') else []}
+              'alts': self.embed_facts(osrc, row) if (isroot and osrc is not None and row) else []}
         steps = []
         scripts = []
         ref = []  # result AST of the first successful formatted route (replay detail only)
